@@ -18,7 +18,6 @@ import (
 	"math/big"
 	"os"
 	"path/filepath"
-	"strconv"
 	"strings"
 	"sync"
 
@@ -217,6 +216,22 @@ func (p csParams) secret() string {
 	return rsaEncryptB64(&rsaKeys[p.KeyIdx].priv.PublicKey, []byte(inner))
 }
 
+// buildSeeded renders the request like request() and tells the reference what the fresh
+// secret decrypts to (the client made it; the reference's own RSA decryption of an honest
+// encryption yields exactly that), which halves the RSA work of families that need a new
+// secret per request. Only when the secret is encrypted to the key its fingerprint names.
+func (p csParams) buildSeeded() csReq {
+	inner := strings.Join([]string{"version=v1", "type=" + p.Type, "key=" + b64s.EncodeToString(p.HmacKey), "time=" + p.Ts}, "; ")
+	sec := rsaEncryptB64(&rsaKeys[p.KeyIdx].priv.PublicKey, []byte(inner))
+	if rsaKeys[p.KeyIdx].Fingerprint == p.Fingerprint {
+		if len(refDecCache) > 4096 {
+			refDecCache = map[string]refDec{}
+		}
+		refDecCache[p.Fingerprint+"\x00"+sec] = refDec{pt: []byte(inner)}
+	}
+	return p.build(sec)
+}
+
 func csHeader(fingerprint, secret, signature string) string {
 	return "key=" + fingerprint + "; secret=" + secret + "; signature=" + signature
 }
@@ -253,6 +268,11 @@ type csVerdict struct {
 	key    []byte // the client's key (when the secret decrypted)
 	ctype  string
 	ts     *big.Int
+	tsText string // the timestamp as spelled in the secret (when the secret decrypted)
+	// undecided: everything but the time verifies, and the timestamp is neither certainly
+	// inside nor certainly outside the tolerance during the interval in which the gate read
+	// its clock (only with refVerifyCSWin and t0 < t1 or tolLo < tolHi): nothing is judged
+	undecided bool
 }
 
 func parseAttrs(s string) map[string]string {
@@ -266,8 +286,37 @@ func parseAttrs(s string) map[string]string {
 	return m
 }
 
+// decimalInteger: the decimal meaning of a timestamp spelling: an optional sign
+// followed by at least one ASCII digit, nothing else (any number of digits: the value
+// is exact, not an int64).
+func decimalInteger(s string) (*big.Int, bool) {
+	t := s
+	if len(t) > 0 && (t[0] == '+' || t[0] == '-') {
+		t = t[1:]
+	}
+	if len(t) == 0 {
+		return nil, false
+	}
+	for i := 0; i < len(t); i++ {
+		if t[i] < '0' || t[i] > '9' {
+			return nil, false
+		}
+	}
+	v, ok := new(big.Int).SetString(strings.TrimPrefix(s, "+"), 10)
+	return v, ok
+}
+
 // refVerifyCS decides one request on its own: configured = fingerprint -> private key.
 func refVerifyCS(q csReq, configured map[string]*rsa.PrivateKey, now, tolSec int64) csVerdict {
+	return refVerifyCSWin(q, configured, now, now, tolSec, tolSec)
+}
+
+// refVerifyCSWin is refVerifyCS for a gate that read its clock (whole unix seconds)
+// at some instant of [t0,t1] and whose tolerance is somewhere in [tolLo,tolHi] seconds
+// (a tolerance that is not a whole number of seconds): the timestamp is certainly
+// outside iff it is outside tolHi for every instant of the interval, certainly inside
+// iff it is inside tolLo for every instant; otherwise the verdict is undecided.
+func refVerifyCSWin(q csReq, configured map[string]*rsa.PrivateKey, t0, t1, tolLo, tolHi int64) csVerdict {
 	if q.NoHdr {
 		return csVerdict{reason: "no-header"}
 	}
@@ -295,14 +344,15 @@ func refVerifyCS(q csReq, configured map[string]*rsa.PrivateKey, now, tolSec int
 	}
 	v := csVerdict{key: key, ctype: in["type"]}
 	tsStr := in["time"]
-	if _, err := strconv.ParseInt(tsStr, 10, 64); err != nil {
-		v.reason = "timestamp-not-int64"
+	v.tsText = tsStr
+	ts, ok := decimalInteger(tsStr)
+	if !ok {
+		v.reason = "timestamp-not-a-decimal-integer"
 		return v
 	}
-	ts, _ := new(big.Int).SetString(strings.TrimPrefix(tsStr, "+"), 10)
 	v.ts = ts
-	diff := new(big.Int).Sub(ts, big.NewInt(now))
-	if diff.Abs(diff).Cmp(big.NewInt(tolSec)) > 0 {
+	// certainly outside: outside [ts-tolHi, ts+tolHi] for every instant of [t0,t1]
+	if big.NewInt(t1).Cmp(new(big.Int).Sub(ts, big.NewInt(tolHi))) < 0 || big.NewInt(t0).Cmp(new(big.Int).Add(ts, big.NewInt(tolHi))) > 0 {
 		v.reason = "timestamp-outside-tolerance"
 		return v
 	}
@@ -315,6 +365,11 @@ func refVerifyCS(q csReq, configured map[string]*rsa.PrivateKey, now, tolSec int
 	}
 	if !hmac.Equal(want.Sum(nil), got) {
 		v.reason = "signature-mismatch"
+		return v
+	}
+	// certainly inside: inside [ts-tolLo, ts+tolLo] for every instant of [t0,t1]
+	if big.NewInt(t0).Cmp(new(big.Int).Sub(ts, big.NewInt(tolLo))) < 0 || big.NewInt(t1).Cmp(new(big.Int).Add(ts, big.NewInt(tolLo))) > 0 {
+		v.undecided, v.reason = true, "timestamp-at-the-edge-of-the-tolerance-while-the-gate-read-its-clock"
 		return v
 	}
 	v.valid, v.reason = true, "valid"
